@@ -24,7 +24,8 @@ EXPECTED_PROBES = ['client_first', 'server_first', 'crossing',
                    'close_before_ready', 'second_close', 'send_refused',
                    'sent_inside_closing', 'app_close_inside_closing',
                    'message_between_closes', 'empty_close_payload',
-                   'after_bad_close_on_earlier_connection', 'close_write_failed']
+                   'after_bad_close_on_earlier_connection', 'close_write_failed',
+                   'close_timeout_disabled']
 
 CODES = [1000, 1001, 1002, 1003, 1007, 1008, 1009, 1010, 1011, 3000, 4999]
 
@@ -58,6 +59,8 @@ def make_case(family, i, rng, tier):
             it['lenforms'] = (it.get('lenforms') or [None])[:n]
             it['inner'] = (it.get('inner') or [])[:n - 1]
     case = {'kind': kind, 'pre': pre, 'sclose': _sclose(rng),
+            'close_timeout': rng.choice([30, 30, 0, None, 0.0]),
+            'reply_after': rng.choice([0, 0, 700000, 6000000]),
             'send_everywhere': rng.random() < 0.6,
             'eof_after': rng.random() < 0.7}
     enc = ST.encode_items(pre)
@@ -139,7 +142,7 @@ def build(case):
         enc = ST.encode_items(case.get('pre') or [])
         enc2 = ST.encode_items((case.get('mid') or []) + [sc_item])
         tail = [{'op': 'await_close', 'timeout': 20000000},
-                S.send(bytes(enc2.stream))]
+                S.send(bytes(enc2.stream), after=case.get('reply_after', 0))]
         expected = enc.expected + enc2.expected
     else:
         enc = ST.encode_items((case.get('pre') or []) + [sc_item])
@@ -167,7 +170,8 @@ def build(case):
             app.append({'when': {'name': n}, 'do': list(SENDS)})
     sc = ST.stream_scenario(case, enc, tail, app=app,
                             connect={'ping_rate': 0, 'poll': 5,
-                                     'close_timeout': 30})
+                                     'close_timeout': case.get(
+                                         'close_timeout', 30)})
     if case.get('close_write_fails'):
         sc['conns'][0]['faults'] = [{'op': 'sendall', 'first_byte': 0x88,
                                      'kind': case['close_write_fails']}]
@@ -216,6 +220,8 @@ def execute(case):
         tr.finished = True
     names = tr.names()
     res.stats['probe:' + kind] += 1
+    if not case.get('close_timeout'):
+        res.stats['probe:close_timeout_disabled'] += 1
     st = tr.world.socks[-1]
     wire = oracle.Wire(st)
     closes = [f for f in wire.frames if f.opcode == peer.OP_CLOSE]
